@@ -47,7 +47,9 @@ type SvcEvent struct {
 
 // SvcModel is the atomic service: answers are computed when delivered.
 type SvcModel struct {
-	w      *World
+	w *World
+	// ResetQuiet: per system.reset sent, whether the gateway was internally quiet at that moment
+	ResetQuiet []bool
 	Res    map[string]*SvcRes
 	Norm   func(name, q string) string
 	Access func(name, q, cid, token string) string
@@ -297,6 +299,9 @@ func (s *SvcModel) Reset(resources, access []string) {
 		Access    []string `json:"access,omitempty"`
 	}
 	b, _ := json.Marshal(p{resources, access})
+	// was the gateway internally quiet when the reset was sent? (then nothing
+	// sent earlier is still waiting to be processed ahead of it)
+	s.ResetQuiet = append(s.ResetQuiet, s.w.internalQuiet())
 	s.w.MQ.Publish("system.reset", b)
 }
 
